@@ -26,6 +26,13 @@ from . import vtkenc as V
 from . import c05 as G
 
 HEADER = G.header() + """
+From FC Require Import Model.VtuFile Proofs.VtuFileP.
+(* whole file: (the file model of the data handed to the writer is the written file element by element,
+   what the reader model makes of the written file: points, cells per type, point-data rows, cell-data rows per type) *)
+Definition filechk (bo : border) (d : vdata) (f : vfile) :=
+  (wf_vdatab d && cdata_alignedb d, vfile_eqb (write_vtu bo d) f,
+   option_map (fun r => (a_rows (r_points r), r_groups r, map (fun na => a_rows (snd na)) (r_pdata r),
+                         map (fun x => snd (snd x)) (r_cdata r))) (read_vtu bo f)).
 Fixpoint zrow_eqb (a b : list Z) : bool :=
   match a, b with [], [] => true | x :: a', y :: b' => Z.eqb x y && zrow_eqb a' b' | _, _ => false end.
 Fixpoint zrows_eqb (a b : list (list Z)) : bool :=
@@ -340,6 +347,89 @@ def model_exprs(path, snap):
     return exprs, metas, ok
 
 
+DT2V = {"int8": "VInt 1", "uint8": "VUInt 1", "int16": "VInt 2", "uint16": "VUInt 2", "int32": "VInt 4", "uint32": "VUInt 4",
+        "int64": "VInt 8", "uint64": "VUInt 8", "float32": "VFloat 4", "float64": "VFloat 8"}
+
+
+def bit_rows(a):
+    """rows of integers (floats as bit patterns) of an array with one entry per leading index"""
+    a = normal_values(np.asarray(a))
+    a = a.astype(a.dtype.newbyteorder("="))
+    if a.dtype.kind == "f":
+        a = a.view("u" + str(a.dtype.itemsize))
+    if a.ndim == 1:
+        return [[int(x)] for x in a]
+    return [[int(x) for x in r] for r in a]
+
+
+def nl(rows_):
+    return lib.clist([lib.clist([str(int(x)) for x in r], "N") for r in rows_], "(list N)")
+
+
+def file_expr(path, snap, got):
+    """Gallina expression of the whole-file tie and the value expected from the implementation's read-back; None if out of scope"""
+    attrs, arrays = written_arrays(path)
+    bo = "LE" if sys.byteorder == "little" else "BE"
+    by = {}
+    for name, sec, vt, nc, text in arrays:
+        by.setdefault(sec, []).append((name, vt, nc, text))
+    if sum(len(a[4]) for a in arrays) > 12000 or not all(k in by for k in ("Points", "Cells")):
+        return None
+    if any(t not in per for per in snap["cf"].values() for t in snap["cells"]) or any(len(c) == 0 for c in snap["cells"].values()):
+        return None
+
+    def darr(vt, nc, text):
+        return f"{{| da_type := {VT[vt]}; da_nc := {nc}; da_text := {G.hx(text)} |}}"
+
+    def narr(a, nc=None):
+        a = np.asarray(a)
+        comps = int(np.prod(a.shape[1:])) if a.ndim > 1 else 1
+        return f"{{| a_type := {DT2V[str(a.dtype.newbyteorder('='))]}; a_nc := {nc or comps}; a_rows := {zl(bit_rows(a))} |}}"
+
+    p = snap["points"]
+    if p.shape[1] != 3:
+        pp = np.zeros((p.shape[0], 3), dtype="f8")
+        pp[:, :p.shape[1]] = p
+        p = pp
+    groups = lib.clist([f"({t}, {nl(c)})" for t, c in snap["cells"].items()], "(N * list (list N))")
+    pnames = [a[0] for a in by.get("PointData", [])]
+    cnames = [a[0] for a in by.get("CellData", [])]
+    if sorted(pnames) != sorted(snap["pf"]) or sorted(cnames) != sorted(snap["cf"]):
+        return None           # (reported by the content comparison)
+    pd = lib.clist([f"({G.hx(n.encode())}, {narr(snap['pf'][n])})" for n in pnames], "(bytes * narray)")
+    cds = []
+    for n in cnames:
+        per = [np.asarray(snap["cf"][n][t]) for t in snap["cells"]]
+        a0 = per[0]
+        comps = int(np.prod(a0.shape[1:])) if a0.ndim > 1 else 1
+        cds.append(f"({G.hx(n.encode())}, ({DT2V[str(a0.dtype.newbyteorder('='))]}, {comps}, "
+                   f"{lib.clist([zl(bit_rows(x)) for x in per], '(list (list Z))')}))")
+    cd = lib.clist(cds, "(bytes * (vtype * N * list (list (list Z))))")
+    idt = np.result_type(*[np.asarray(c).dtype for c in snap["cells"].values()])
+    d = f"{{| v_points := {narr(p, 3)}; v_groups := {groups}; v_itype := {DT2V[str(idt.newbyteorder('='))]}; v_pdata := {pd}; v_cdata := {cd} |}}"
+    cells = {a[0]: a for a in by["Cells"]}
+    pts = by["Points"][0]
+    f = (f"{{| f_points := {darr(*pts[1:])}; f_conn := {darr(*cells['connectivity'][1:])}; f_offs := {darr(*cells['offsets'][1:])}; "
+         f"f_types := {darr(*cells['types'][1:])}; "
+         f"f_pdata := {lib.clist([f'({G.hx(a[0].encode())}, {darr(*a[1:])})' for a in by.get('PointData', [])], '(bytes * darray)')}; "
+         f"f_cdata := {lib.clist([f'({G.hx(a[0].encode())}, {darr(*a[1:])})' for a in by.get('CellData', [])], '(bytes * darray)')} |}}")
+    # what the implementation read back from the same file, in the model's output format
+    try:
+        exp = (bit_rows(got["points"]),
+               [(t, [[int(x) for x in r] for r in got["cells"][t]]) for t in sorted(got["cells"])],
+               [bit_rows(got["pf"][n]) for n in pnames],
+               [[(t, bit_rows(got["cf"][n][t])) for t in sorted(got["cf"][n])] for n in cnames])
+    except KeyError:
+        return None
+    return f"filechk {bo} {d} {f}", exp
+
+
+def canon(v):
+    if isinstance(v, (list, tuple)):
+        return [canon(x) for x in v]
+    return v
+
+
 # ------------------------------------------------------------------------------------------------ scenarios
 def scenario(rng):
     """JSON-able description of one scenario"""
@@ -377,6 +467,7 @@ def corpus_specs():
 def mesh_stream(ctx, n):
     rng = ctx.rng
     exprs, owners = [], []
+    fexprs, fowners = [], []
     corpus = corpus_specs()
     for i in range(n + len(corpus)):
         if G.too_many(ctx):
@@ -420,8 +511,33 @@ def mesh_stream(ctx, n):
             for e_, m_ in zip(ex, metas):
                 exprs.append(e_)
                 owners.append((desc, m_))
+            if len(fexprs) < ctx.extra.get("file_budget", 400):
+                try:
+                    fe = file_expr(path, snap, got)
+                except Exception as e:   # noqa: BLE001
+                    ctx.notes.append(f"written file not translated for the whole-file tie: {type(e).__name__}: {e}")
+                    fe = None
+                if fe is not None:
+                    fexprs.append(fe[0])
+                    fowners.append((desc, fe[1]))
+                else:
+                    ctx.count("whole-file tie: out of scope (empty cell type / field lacking a cell type / large file)")
         if path and os.path.exists(path):
             os.unlink(path)
+    fvals = ctx.coq_eval(HEADER, fexprs, shard=max(5, len(fexprs) // 14 + 1), name="c13file") if fexprs else []
+    for (desc, exp), v in zip(fowners, fvals):
+        ctx.tie("T2 write_vtu model = the written file, element by element")
+        ctx.tie("T2 read_vtu model = what the implementation reads back from the written file")
+        if v[0] is True:
+            ctx.count("whole-file tie: data set meets the hypotheses of C13_vtu_file_write_read (wf_vdatab)")
+        else:
+            ctx.count("whole-file tie: data set outside the hypotheses of C13_vtu_file_write_read")
+        v = v[1:]
+        if v[0] is not True:
+            ctx.violation("E2", "write_vtu model != the file VTUWriter wrote (some DataArray element differs)", desc, found_input=False)
+        if v[1] is None or canon(v[1][1] if isinstance(v[1], (list, tuple)) and len(v[1]) == 2 and v[1][0] == "Some" else v[1]) != canon(exp):
+            ctx.violation("E2", "read_vtu model != what VTUReader handed out for the written file", desc, found_input=False,
+                          model=repr(v[1])[:600], impl=repr(exp)[:600])
     vals = ctx.coq_eval(HEADER, exprs, shard=max(10, len(exprs) // 12 + 1), name="c13")
     for (desc, meta), v in zip(owners, vals):
         ctx.tie("T2 writer model = written DataArray text")
